@@ -19,6 +19,17 @@ def jobs_for(tier, seed):
     for i, s in enumerate(shapes):
         v = [5, 6, 7, 8, 9, 10][i % 6] if i % 7 else 6
         jobs.append((s, seed * 7919 + i, v, (i % 2 == 1) and v >= 6))
+    # every tuple over the three layout classes (bit-packed bool / static / dynamic) up to a length: the head/tail bookkeeping of
+    # _encode_tuple depends only on the class sequence; each in the main routine (scratch slots) and in a subroutine (frame variables)
+    import itertools
+    for n in range(1, (5 if tier == "quick" else 6) + 1):
+        for seq in itertools.product(("bool", "uint8", "string"), repeat=n):
+            if "string" not in seq and n > 3:
+                continue   # all-static tuples: covered by the catalogue
+            sh = "(" + ",".join(seq) + ")"
+            k = len(jobs)
+            jobs.append((sh, seed * 7919 + k, 6 + k % 2, False))
+            jobs.append((sh, seed * 7919 + k, 8 + k % 3, True))
     return jobs
 
 
